@@ -233,6 +233,14 @@ func mapField(
 			}).Lift(lift...)
 		}
 		sourceMatch, err := xtype.FindExactField(nextSource, path[i])
+		if err == nil && !xtype.Accessible(sourceMatch.Obj, ctx.OutputPackagePath) {
+			cause := fmt.Sprintf("Cannot read the unexported source entry %q from the output package.", sourceMatch.Name)
+			return nil, nil, nil, nil, false, NewError(cause).Lift(&Path{
+				Prefix:     ".",
+				SourceID:   path[i],
+				SourceType: "???",
+			}).Lift(lift...)
+		}
 		if err == nil {
 			nextSource = sourceMatch.Type
 			nextIDCode = nextIDCode.Clone().Dot(sourceMatch.Name)
